@@ -23,6 +23,26 @@ impl<const P: u128> FiniteField<P> {
     }
 }
 
+/// `(a * b) mod P` for reduced `a`, `b`. The product of two residues of a
+/// prime above 2^64 does not fit in a `u128`; fall back to double-and-add in
+/// that case (every intermediate value stays below `2 * P`).
+fn mul_mod<const P: u128>(a: u128, b: u128) -> u128 {
+    match a.checked_mul(b) {
+        Some(v) => v % P,
+        None => {
+            let (mut a, mut b, mut r) = (a, b, 0u128);
+            while b > 0 {
+                if b & 1 == 1 {
+                    r = (r + a) % P;
+                }
+                a = (a + a) % P;
+                b >>= 1;
+            }
+            r
+        }
+    }
+}
+
 impl<const P: u128> Semiring for FiniteField<P> {
     fn one() -> Self {
         FiniteField::new(1)
@@ -47,7 +67,7 @@ impl<const P: u128> ops::Mul<FiniteField<P>> for FiniteField<P> {
     type Output = FiniteField<P>;
 
     fn mul(self, rhs: FiniteField<P>) -> Self::Output {
-        FiniteField::new((self.v * rhs.v) % P)
+        FiniteField::new(mul_mod::<P>(self.v, rhs.v))
     }
 }
 
